@@ -220,6 +220,12 @@ def _insitu(ctx, mon, shard):
             {"time": float(rng.randrange(0, 100000)), "width": 20 + (i % 7), "text": "L%d" % i}
             for i in range(n)
         ]
+        if n >= 2 and k % 2 == 1:
+            # repeated events: an equal copy of a row, and the very same dict listed twice - still one name per label
+            data[n - 1] = dict(data[0])
+            if n >= 4:
+                data[n - 2] = data[1]
+                data[2] = dict(data[0])
         palette = ["#%03x" % rng.randrange(4096) for _ in range(7)]
         opts = {
             "scale": LinearScale(),
